@@ -21,7 +21,7 @@ PROP = {'assumptions': ['runtime behaviour observed under sanitizers, not proved
 
 TEXT = {'design_ref': 'DESIGN.md section 4, C07',
  'note': 'Partial by nature: time bounds, stack depth, libc regcomp cost and memory safety of the binary are observed, not proved; work is counted in visits '
-         'and deliveries of the model, and the pattern tests per child (at most the number of entries) are not stated as a theorem.  The model covers the '
+         'and deliveries of the model, the product bound on the pattern tests of a WHOLE traversal is not proved (its two factors are).  The model covers the '
          'command subset of Engines/Srv.lean.',
  'technique': "Lean 4 theorems (every handler of the reflector model is total; a second session's ping is answered after any command history) + hostile-stream "
               'exploration of a real server with a witness session, per-op alarm and ASan/UBSan',
@@ -34,4 +34,6 @@ TEXT = {'design_ref': 'DESIGN.md section 4, C07',
          'Bounded work in the model: `traversal_visits_bounded` (for every tree, matcher, callback and fuel a traversal hands at most one visit per node below '
          'its root to the callback - the bound does not depend on the number or shape of the hostile patterns), `traversal_depth_bounded` (no visit path '
          'longer than the depth limit), `travGlobal_bounded`/`travSession_bounded`, and `route_deliveries_bounded`/`send_deliveries_bounded` (one '
-         'client-to-client Message enqueues at most max(nodes, sessions) copies in total).'}
+         'client-to-client Message enqueues at most max(nodes, sessions) copies in total).  `travSession_bounded_root` bounds every traversal a client can '
+         'trigger by the size of the whole tree, `pattern_tests_bounded` the pattern tests per child by the number of entries (through a cost-instrumented '
+         'twin of the entry loop proved equal to it), and `cmd_deliveries_bounded_reach` discharges the distinct-ids hypothesis for every reachable state.'}
